@@ -5,15 +5,27 @@ use margined_perp::margined_pricefeed::QueryMsg;
 
 use crate::state::{read_config, Config};
 
+/// Latest round as returned by the price feed contract, only the price is needed here
+#[derive(serde::Deserialize)]
+struct PriceRound {
+    price: Uint128,
+}
+
 // returns the underlying price provided by an oracle
 pub fn query_underlying_price(deps: &Deps) -> StdResult<Uint128> {
     let config: Config = read_config(deps.storage)?;
     let key: String = config.base_asset;
 
-    deps.querier.query(&QueryRequest::Wasm(WasmQuery::Smart {
+    let request = QueryRequest::Wasm(WasmQuery::Smart {
         contract_addr: config.pricefeed.to_string(),
         msg: to_binary(&QueryMsg::GetPrice { key })?,
-    }))
+    });
+
+    // the price feed answers with its latest round, simpler feeds with the bare price
+    match deps.querier.query::<PriceRound>(&request) {
+        Ok(round) => Ok(round.price),
+        Err(_) => deps.querier.query(&request),
+    }
 }
 
 // returns the underlying twap price provided by an oracle
